@@ -194,7 +194,8 @@ PROPS["C09"] = dict(
     jobs=[job("graphs", "^TestTypeGraphs$", (4, 16), (6000, 200000), (900, 3000)),
           job("layered", "^TestLayeredGraphs$", (1, 4), (120, 3000), (900, 3000)),
           job("one-name-two-tables", "^TestOneNameTwoTables$", (1, 2), (300, 6000), (600, 3000)),
-          job("inherited-cycles", "^TestInheritedCycles$", (1, 2), (400, 8000), (600, 3000))],
+          job("inherited-cycles", "^TestInheritedCycles$", (1, 2), (400, 8000), (600, 3000)),
+          job("example-growth", "^TestExampleGrowth$", (1, 2), (24, 400), (600, 3000))],
 )
 PROPS["C16"] = dict(
     pkg="c16", level="exploration",
